@@ -3,7 +3,7 @@ import ast
 
 from . import rule, info
 from ..program import AnalysisError, src, norm, ClassInfo
-from ..util import (exclusive, polarity, is_name, calls_in, callee_qual, deref, ancestors, handler_outcomes, handler_body_nodes,
+from ..util import (raised_class, is_subclass, exclusive, polarity, is_name, calls_in, callee_qual, deref, ancestors, handler_outcomes, handler_body_nodes,
                     enclosing_trys, in_handler_of, handler_covers, completes_normally, cls_name, fmt_witness,
                     stmt_of)
 
@@ -530,3 +530,66 @@ def evaluator_frames_have_parents(ctx):
                    '(glom([1, 2], Iter().first(key)) with key raising Boom -> IndexError)' % src(single, 50), node=c)
     if n_sites < 40:
         raise AnalysisError('C04.12: only %d evaluator call sites found (floor 40)' % n_sites)
+
+
+@rule('C04.14')
+def no_evaluation_in_generator_expressions(ctx):
+    """PEP 479: a StopIteration raised while a generator expression is being consumed leaves it
+    as RuntimeError.  A sub-spec or user callable evaluated inside one (``tuple(recur(v) for v in
+    spec)``) would therefore change the class of exactly that exception; list / set / dict
+    comprehensions do not.  (Iter's stage generators hand items to the caller's own loop and are
+    decided under C17.)"""
+    p = ctx.program
+    n_gen = 0
+    for u in p.package_units():
+        if u.module.short in ('tutorial',):
+            continue
+        gens = [n for n in u.own_nodes() if isinstance(n, ast.GeneratorExp)]
+        if not gens:
+            continue
+        # local names bound to lambdas that evaluate (recur / recurse helpers)
+        evaluating = set()
+        for n in u.own_nodes():
+            if isinstance(n, ast.Assign) and is_name(n.targets[0]) and isinstance(n.value, ast.Lambda):
+                lu = p.unit_of(n.value)
+                if lu is not None and any(p.is_evaluator_call(lu, c) or callee_qual(p, lu, c) == 'core.arg_val' for c in calls_in(lu)):
+                    evaluating.add(n.targets[0].id)
+        for g in gens:
+            n_gen += 1
+            bad = [c for c in ast.walk(g.elt) if isinstance(c, ast.Call) and (
+                p.is_evaluator_call(u, c) or callee_qual(p, u, c) == 'core.arg_val'
+                or (isinstance(c.func, ast.Name) and c.func.id in evaluating))]
+            ctx.ob(not bad, u, 'no spec evaluation inside a generator expression: %s' % src(g, 60),
+                   '' if not bad else 'a StopIteration raised by %s would surface as RuntimeError' % [norm(c)[:50] for c in bad], node=g)
+    ctx.ob(True, 'glom', '%d generator expression(s) examined' % n_gen)
+    ctx.floor(1)
+
+
+PARTIAL_ON_USER_VALUES = {'sorted', 'max', 'min', 'hash', 'sum'}
+
+
+@rule('C04.15')
+def error_construction_is_total(ctx):
+    """a failure glom detects itself must surface as the documented GlomError subtype: the
+    expressions that build the error's arguments from user data (keys, targets, specs) may format
+    them but must not order, hash or add them -- ``sorted(required)`` raises TypeError for keys
+    that are not mutually comparable and replaces the MatchError it was building"""
+    p = ctx.program
+    n = 0
+    for u in p.package_units():
+        if u.module.short in ('tutorial', 'cli'):
+            continue
+        for r in [x for x in u.own_nodes() if isinstance(x, ast.Raise) and isinstance(x.exc, ast.Call)]:
+            if not is_subclass(raised_class(p, u, r), 'GlomError'):
+                continue
+            n += 1
+            bad = []
+            for a in list(r.exc.args) + [k.value for k in r.exc.keywords]:
+                for c in ast.walk(a):
+                    if isinstance(c, ast.Call) and isinstance(c.func, ast.Name) and c.func.id in PARTIAL_ON_USER_VALUES \
+                            and c.args and not isinstance(c.args[0], ast.Constant):
+                        bad.append(norm(c)[:60])
+            ctx.ob(not bad, u, 'the error is built without ordering / hashing user values: raise %s' % src(r.exc.func, 40),
+                   '' if not bad else '%s can itself raise for arbitrary keys or targets and replace the error' % bad, node=r)
+    if n < 20:
+        raise AnalysisError('C04.15: only %d GlomError raise sites found (floor 20)' % n)
